@@ -22,6 +22,7 @@
 #include <iostream>
 #include <limits>
 #include <memory>
+#include <mutex>
 #include <sstream>
 #include <stdexcept>
 
@@ -51,7 +52,17 @@ namespace bxdecay0 {
     epsabs                       = 0.0;
     int count                    = 0;
     int status                   = 0;
-    gsl_error_handler_t * gsl_eh = gsl_set_error_handler_off();
+    // The GSL error handler is process-wide: it is switched off while at least one
+    // quadrature is running (in any thread) and restored when the last one is done.
+    static std::mutex gsl_eh_mutex;
+    static int gsl_eh_users                 = 0;
+    static gsl_error_handler_t * gsl_eh = nullptr;
+    {
+      std::lock_guard<std::mutex> lock(gsl_eh_mutex);
+      if (gsl_eh_users++ == 0) {
+        gsl_eh = gsl_set_error_handler_off();
+      }
+    }
     while (true) {
       status = gsl_integration_qng(&F, min_, max_, epsabs, epsrel, &result, &abserr, &neval);
       /// TRACE
@@ -85,7 +96,12 @@ namespace bxdecay0 {
       }
       /// TRACE if (trace) std::cerr << "[trace] bxdecay0::decay0_gauss: GSL_ETOL = " << "retrying..." << std::endl;
     }
-    gsl_set_error_handler(gsl_eh);
+    {
+      std::lock_guard<std::mutex> lock(gsl_eh_mutex);
+      if (--gsl_eh_users == 0) {
+        gsl_set_error_handler(gsl_eh);
+      }
+    }
     if (status != 0) {
       std::ostringstream message;
       message << "bxdecay0::decay0_gauss: "
